@@ -633,9 +633,17 @@ def _node_representer(dumper, node):
                     assert tag.startswith('!null')
                     with dumper.force_unquoted():
                         return dumper.represent_scalar(tag, '', style='')
+                if isinstance(data, ConfigScalar):
+                    native = data._dyn_base(data)
+                    # the text yaml itself writes for the bare value (".inf", "1.0e+16", ...)
+                    text = dumper.represent_data(native).value
+                    if isinstance(native, str):
+                        # a string is quoted by the emitter in a way that survives parsing
+                        # (python's repr does not: newlines, backslashes, mixed quotes)
+                        return dumper.represent_scalar(tag, text)
+                    with dumper.force_unquoted():
+                        return dumper.represent_scalar(tag, text)
                 with dumper.force_unquoted():
-                    if isinstance(data, ConfigScalar):
-                        return dumper.represent_scalar(tag, repr(data._dyn_base(data)))
                     return dumper.represent_scalar(tag, str(data))
             else:
                 if isinstance(data, ConfigScalar):
